@@ -3,6 +3,7 @@
 
 use crate::checks::c01::truncate;
 use crate::drivers::*;
+use crate::checks::c12::js;
 use crate::engine::*;
 use crate::run::guarded;
 use crate::spm::*;
@@ -423,7 +424,7 @@ pub fn run(tier: &str, seed: u64) -> i32 {
         let (all, _, _) = enumerate(&d, if thorough { 2 } else { 1 }, 2_000_000);
         for (_, s) in all {
             if crate::checks::c05::wf5_ok(&s) {
-                states.push(json!({"prog": serde_json::to_value(s.program()).unwrap()}));
+                states.push(js(json!({"prog": serde_json::to_value(s.program()).unwrap()})));
             }
         }
     }
